@@ -164,6 +164,14 @@ def cases_for(spec, rng, quick):
             yield {'cp': cps[0] if cps else ('', 0, '', '')}
         elif q == 'TracebackInfo.get_formatted':
             yield {'frames': callpoints(rng)}
+        elif q == 'ExceptionInfo.get_formatted_exception_only':
+            yield {'exc_type': rstr(rng, 0, 8), 'exc_msg': rng.choice(['', rstr(rng, 0, 9)])}
+        elif q == 'ExceptionInfo.get_formatted':
+            yield {'exc_type': rstr(rng, 0, 8), 'exc_msg': rng.choice(['', rstr(rng, 0, 9)]), 'frames': callpoints(rng)}
+        elif q == 'ExceptionInfo.from_exc_info':
+            yield {'module': rng.choice(['__main__', 'builtins', '', 'pkg.mod', '__main__x', 'Builtins', None, 5,
+                                         rstr(rng, 0, 6)]),
+                   'qualname': rng.choice(['E', 'Outer.Inner', 'f.<locals>.E', rstr(rng, 0, 6)])}
         elif q == 'sn_swap':
             yield {'a': rstr(rng, 0, 4), 'b': rstr(rng, 0, 4), 'n': rng.randint(-3, 6)}
         elif q == 'sn_loop':
@@ -190,6 +198,15 @@ def encode(spec, case):
         for p, ln, fn, raw in case['frames']:
             toks += [enc_s(p), str(ln), enc_s(fn), enc_s(raw)]
         return toks
+    if q == 'ExceptionInfo.get_formatted_exception_only':
+        return [enc_s(case['exc_type']), enc_s(case['exc_msg'])]
+    if q == 'ExceptionInfo.get_formatted':
+        toks = [enc_s(case['exc_type']), enc_s(case['exc_msg']), str(len(case['frames']))]
+        for p, ln, fn, raw in case['frames']:
+            toks += [enc_s(p), str(ln), enc_s(fn), enc_s(raw)]
+        return toks
+    if q == 'ExceptionInfo.from_exc_info':
+        return [enc_os(case['module'] if isinstance(case['module'], str) else None), enc_s(case['qualname'])]
     if q == 'sn_swap':
         return [enc_s(case['a']), enc_s(case['b']), str(case['n'])]
     if q == 'sn_loop':
@@ -217,6 +234,24 @@ def run_python(mod, sn_mod, spec, case):
                 keys.append(k)
                 cps.append(cp)
             return mod.TracebackInfo(cps).get_formatted()
+        if q == 'ExceptionInfo.get_formatted_exception_only':
+            return mod.ExceptionInfo(case['exc_type'], case['exc_msg'], mod.TracebackInfo([])).get_formatted_exception_only()
+        if q == 'ExceptionInfo.get_formatted':
+            cps = []
+            for c in case['frames']:
+                cp, k = real_callpoint(mod, c)
+                keys.append(k)
+                cps.append(cp)
+            return mod.ExceptionInfo(case['exc_type'], case['exc_msg'], mod.TracebackInfo(cps)).get_formatted()
+        if q == 'ExceptionInfo.from_exc_info':
+            # a real class with these `__module__` / `__qualname__`, a real raised and caught instance of it
+            cls = type('E', (Exception,), {})
+            cls.__module__ = case['module']
+            cls.__qualname__ = case['qualname']
+            try:
+                raise cls('x')
+            except cls:
+                return mod.ExceptionInfo.from_exc_info(*sys.exc_info()).exc_type
         return getattr(sn_mod, q)(**case)
     except Exception as e:       # the generated definitions are total: a raise is a mismatch
         return 'RAISED %r' % (e,)
@@ -288,6 +323,14 @@ ARMS = {
     'TracebackInfo.get_formatted': '''  | "%d" :: n :: r => do
     let (fs, r) ← takeCps (← n.toNat?) r
     if r.isEmpty then some (Src.%s.%s fs) else none
+''',
+    'ExceptionInfo.get_formatted_exception_only': '''  | ["%d", a, b] => do some (Src.%s.%s (← decS a) (← decS b))
+''',
+    'ExceptionInfo.get_formatted': '''  | "%d" :: a :: b :: n :: r => do
+    let (fs, r) ← takeCps (← n.toNat?) r
+    if r.isEmpty then some (Src.%s.%s (← decS a) (← decS b) fs) else none
+''',
+    'ExceptionInfo.from_exc_info': '''  | ["%d", m, q] => do some (Src.%s.%s ⟨← decOS m, ← decS q⟩)
 ''',
     'sn_swap': '''  | ["%d", a, b, n] => do some (Src.%s.%s (← decS a) (← decS b) (← n.toInt?))
 ''',
